@@ -1454,6 +1454,19 @@ func ruleLoopTimers(r *Run) {
 			}
 			return true
 		})
+		// (any period the connection's own functions read from the handler: it ends up in a timer sooner or later)
+		ast.Inspect(f.Body, func(nd ast.Node) bool {
+			if call, ok := nd.(*ast.CallExpr); ok && len(call.Args) == 0 {
+				if m, ok := calleeObj(info, call).(*types.Func); ok {
+					if sig := m.Type().(*types.Signature); sig.Recv() != nil && sig.Results().Len() == 1 && sig.Results().At(0).Type().String() == "time.Duration" {
+						if _, isIface := sig.Recv().Type().Underlying().(*types.Interface); isIface {
+							getters[m.Name()] = true
+						}
+					}
+				}
+			}
+			return true
+		})
 		ast.Inspect(f.Body, func(nd ast.Node) bool {
 			call, ok := nd.(*ast.CallExpr)
 			if !ok || len(call.Args) == 0 {
